@@ -65,15 +65,17 @@ Proof.
   all: try (specialize (He Hne); revert He; apply ex_ok_weaken; apply writer_persist;
             intros k' Hk; congruence).
   all: try (specialize (He Hne); destruct He as [He|He]; [left; apply writer_persist; [intros k' Hk; congruence|exact He]|right; exact He]).
+  (* WAKE -> EXIT promotion keeps the flag in its domain; with an exit pending the exit test
+     cannot send the loop back to the poll *)
+  all: try (destruct (to_exit s =? ST_WAKE); [right; left; reflexivity|assumption]).
+  all: try (exfalso; unfold ST_EXIT, ST_WAKE in *;
+            destruct (Nat.eqb_spec (to_exit s) 2); [discriminate|];
+            match goal with Hb : (_ =? 1) = false |- _ => apply Nat.eqb_neq in Hb end; lia).
   - specialize (He Hne). destruct He as [He|He].
     + left. apply writer_persist; [intros k' Hk; congruence|exact He].
     + right. split; [lia|intros _; apply Nat.ltb_lt; lia].
   - exfalso; apply ne. symmetry. apply Nat.eqb_eq. assumption.
   - right. lia.
-  - destruct (to_exit s =? ST_WAKE); [right; left; reflexivity|assumption].
-  - exfalso. unfold ST_EXIT, ST_WAKE in *.
-    destruct (Nat.eqb_spec (to_exit s) 2); [discriminate|].
-    apply Nat.eqb_neq in Heqb1. lia.
 Qed.
 
 Theorem einv_all C sched : c_fix_exit C = true -> EInv C (exec sys (step C) init sched).
@@ -137,7 +139,7 @@ Qed.
 Corollary exit_test_leaves C sched : c_fix_exit C = true ->
   let s := exec sys (step C) init sched in
   to_exit s <> 0 -> thr s (c_loop C) = SWakeEnd ->
-  exists s', step C s (c_loop C) 0 = Some (s', LPlain [(n_wake, 0%Z)]) /\
+  exists s', step C s (c_loop C) 0 = Some (s', LPlain (wake_notes C)) /\
              leaving (thr s' (c_loop C)) = true /\ to_exit s' = ST_EXIT.
 Proof.
   intros Hfix s Hne Hp. pose proof (binv_all C sched) as B. fold s in B.
@@ -147,6 +149,24 @@ Proof.
   assert (Hte : (if to_exit s =? ST_WAKE then ST_EXIT else to_exit s) = ST_EXIT).
   { unfold ST_EXIT, ST_WAKE in *. destruct (Nat.eqb_spec (to_exit s) 2); lia. }
   rewrite Hte. simpl. destruct (reg s); eexists; (split; [reflexivity|]); rewrite thr_set_pc_same; split; reflexivity.
+Qed.
+
+(* the same for a bare loop (no handle): the promotion and the exit test follow the clear-up in
+   the same plain segment, whether or not a wake callback is installed, and the loop thread goes
+   through the clear and exit callbacks to the return at once *)
+Corollary exit_test_leaves_bare C sched : c_fix_exit C = true -> c_bare C = true ->
+  let s := exec sys (step C) init sched in
+  to_exit s <> 0 -> thr s (c_loop C) = SWake ->
+  exists s', step C s (c_loop C) 0 = Some (s', LPlain (wake_notes C ++ bare_exit_notes C)) /\
+             thr s' (c_loop C) = AFin /\ returned s' = true /\ to_exit s' = ST_EXIT.
+Proof.
+  intros Hfix Hb s Hne Hp. pose proof (binv_all C sched) as B. fold s in B.
+  destruct (einv_all C sched Hfix) as [Hd _]. fold s in Hd.
+  destruct (b_valid _ _ B (c_loop C)) as [Hn Hc]; [rewrite Hp; discriminate|].
+  unfold step. rewrite Hn, Hc, Hp, Hb. rewrite Bool.orb_true_r. simpl.
+  assert (Hte : (if to_exit s =? ST_WAKE then ST_EXIT else to_exit s) = ST_EXIT).
+  { unfold ST_EXIT, ST_WAKE in *. destruct (Nat.eqb_spec (to_exit s) 2); lia. }
+  rewrite Hte. simpl. eexists; split; [reflexivity|]. rewrite thr_set_pc_same. repeat split.
 Qed.
 
 (* progress: whenever the loop thread has started and not finished, it can take a step, or it
@@ -182,9 +202,7 @@ Qed.
    id; loop thread polls" leaves EXIT pending with no writer in flight, the loop at its poll and
    the signal not readable - and nothing can ever change that (all other threads are done). *)
 Definition cfg_exit_before_run (fx : bool) : config :=
-  {| c_be := BEpoll; c_n := 2; c_loop := 1; c_cap := 8;
-     c_scr := fun t => match t with 0 => [OpX] | _ => [] end;
-     c_fix_exit := fx; c_fix_add := true |}.
+  mk_cfg BEpoll 2 1 8 (fun t => match t with 0 => [OpX] | _ => [] end) fx true.
 Definition sched_exit_before_run : list (nat * nat) :=
   [(0,0);(0,0);(0,0);  (* T0: create; plain op; muggle_evloop_exit -> same-thread branch, EXIT, no wake-up *)
    (1,0);(1,0);(1,0);  (* T1: plain op; run() records its id; poll finds nothing *)
@@ -205,3 +223,16 @@ Example exit_returns_witness_repaired :
     (sched_exit_before_run ++ [(0,0);(0,0);(1,0);(1,0);(1,0);(1,0);(1,0);(1,0);(1,0);(1,0);(1,0);(1,0);(1,0);(1,0);(1,0);(1,0)]) in
   returned s = true /\ thr s 1 = Done.
 Proof. vm_compute. split; reflexivity. Qed.
+
+(* a bare loop on the poll back-end WITHOUT a wake callback, exit requested by another thread
+   while the loop sleeps in poll: the promotion WAKE -> EXIT does not depend on the callback and
+   run() returns through the clear callback of its registered context and the exit callback *)
+Example exit_bare_without_wake_callback :
+  let C := mk_bare BPoll 2 1 8 (fun t => match t with 0 => [OpX] | _ => [] end) 1 false true true in
+  let sched := [(0,0)] ++ repeat (1,0) 4 ++ repeat (0,0) 8 ++ repeat (1,0) 4 in
+  let s := exec sys (step C) init sched in
+  to_exit s = ST_WAKE /\ thr s 1 = SWake /\
+  step C s 1 0 = Some (exec sys (step C) init (sched ++ [(1,0)]),
+                       LPlain [(n_clear, 0%Z); (n_exitcb, 0%Z); (n_returned, 0%Z)]) /\
+  returned (exec sys (step C) init (sched ++ [(1,0)])) = true.
+Proof. vm_compute. repeat split; reflexivity. Qed.
